@@ -369,6 +369,14 @@ impl Router {
         self.connection_map.insert(client_id.clone(), connection_id);
         info!(connection_id, "Client connection registered");
 
+        // subscriptions restored from a saved session belong to this connection id now
+        for filter in self.connections[connection_id].subscriptions.iter() {
+            self.subscription_map
+                .entry(filter.clone())
+                .or_default()
+                .insert(connection_id);
+        }
+
         assert_eq!(self.ackslog.insert(ackslog), connection_id);
         assert_eq!(self.scheduler.add(tracker), connection_id);
 
